@@ -8,14 +8,14 @@ from checks import *
 H3A = '0x22001ffful'; H3B = '0x205e4f27ul'
 C03_EXTRA_Q = [U(3, [0, 1], OP=0, MAPMODE=2), U(3, [0, 1], OP=1, MAPMODE=2), U(2, [0, 0, 2], OP=0, MAPMODE=2), U(2, [0, 0, 2], OP=1, MAPMODE=2), U(2, [0, 1], OP=0, MAPMODE=1), U(2, [0, 1], OP=1, MAPMODE=1),
                U(3, [0, 2], OP=0, RMASK=H3A, _time=1500), U(3, [0, 2], OP=1, RMASK=H3A, _time=1500),
-               U(2, [0, 1, 2], OP=0, SAME_SYMNUM=5), U(2, [0, 1, 2], OP=1, SAME_SYMNUM=5), U(3, [0, 1], OP=0, SAME_SYMNUM=5)]      # one symbol number used with arities 0, 1, 2
+               U(2, [0, 1, 2], OP=0, SAME_SYMNUM=5), U(2, [0, 1, 2], OP=1, SAME_SYMNUM=5), U(3, [0, 1], OP=0, SAME_SYMNUM=5), U(2, [0, 1, 2], OP=0, SAME_SYMNUM=5, BUILD_REV=None), U(2, [0, 1], OP=1, SAME_SYMNUM=5, BUILD_REV=None)]      # one symbol number used with arities 0, 1, 2
 C03_EXTRA_T = [U(3, [0, 2], OP=0, RMASK=H3B, _time=1500), U(3, [0, 2], OP=1, RMASK=H3B, _time=1500), U(3, [0, 2], OP=0, RMASK=H3A, MAPMODE=2, _time=2800), U(2, [0, 1, 2], OP=0, MAPMODE=2), U(2, [0, 1, 2], OP=1, MAPMODE=2)]
 
 CHECKS = {
  'C03': {
   'level': 'model_checking',
   'explanation': 'RemoveUnreachableStates, RemoveUselessStates and IsLangEmpty executed symbolically on every automaton whose rules are drawn from the rule universe of the configuration (presence bit per rule, finality bit per state); results decoded by iterating the returned automaton and compared with naive fixpoint oracles (productive / reachable / useful masks computed on the input - the result is a sub-automaton of the reachable resp. useful part - and on the result itself - every state that occurs in it is reachable from one of its final states resp. every state and rule takes part in one of its accepting runs; macro-state language inclusion in both directions).',
-  'bounds': {'quick': 'automata over <=3 states with symbols of rank <=2; universes: 2 states x {a/0,f/1}, 2 x {a/0,f/1,g/2}, 2 x {a/0,b/0,g/2} (two leaf rules of one state), 3 x {a/0,f/1}; all subsets of rules and final states (8..16 free bits per query); plus (third red-team round) the optional out-map of both operations passed as an empty map (2 x {a/0,f/1}) or as a map that already holds identity entries for any subset of the states - a map left over from an earlier call - on 3 x {a/0,f/1} and 2 x {a/0,b/0,g/2} (16..18 bits), and a 15-rule sub-universe H3A of 3 x {a/0,h/2} (18 bits: a final state whose binary rules mix productive and unproductive children); one symbol number used with the arities 0, 1 (3 states) and 0, 1, 2 (2 states), (number, arity) being the symbol of the reference semantics',
+  'bounds': {'quick': 'automata over <=3 states with symbols of rank <=2; universes: 2 states x {a/0,f/1}, 2 x {a/0,f/1,g/2}, 2 x {a/0,b/0,g/2} (two leaf rules of one state), 3 x {a/0,f/1}; all subsets of rules and final states (8..16 free bits per query); plus (third red-team round) the optional out-map of both operations passed as an empty map (2 x {a/0,f/1}) or as a map that already holds identity entries for any subset of the states - a map left over from an earlier call - on 3 x {a/0,f/1} and 2 x {a/0,b/0,g/2} (16..18 bits), and a 15-rule sub-universe H3A of 3 x {a/0,h/2} (18 bits: a final state whose binary rules mix productive and unproductive children); one symbol number used with the arities 0, 1 (3 states) and 0, 1, 2 (2 states), (number, arity) being the symbol of the reference semantics; rules added in universe order and in reverse order',
              'thorough': 'as quick plus 2 x {a/0,t/3} (a ternary symbol), 2 x {a/0,b/0,f/1,g/2} a second 15-rule sub-universe H3B of 3 x {a/0,h/2}, H3A with a pre-filled map, 2 x {a/0,f/1,g/2} with a pre-filled map'},
   'outside': 'more than 3 states, rank > 2, 3 states with a binary symbol outside the two 15-rule sub-universes, out-maps holding entries that are not identity entries of states < NS, state numbers >= NS, automata sharing storage with other automata (see C11)',
   'harnesses': [
